@@ -281,7 +281,7 @@ thread_local! {
 /// on the same thread runs one of a few fixed histories that end in an abort or exercise re-ordering (rotating per
 /// execution), so that state leaking between instances (thread-locals, statics) shows up as a replay divergence.
 fn unrelated_prelude() {
-  let k = PRELUDE_COUNTER.with(|c| { let v = c.get(); c.set(v + 1); v }) % 5;
+  let k = PRELUDE_COUNTER.with(|c| { let v = c.get(); c.set(v + 1); v }) % 7;
   let st = |op| Stmt { guard: None, op };
   let q = OC::Equals;
   let (p, path): (Prog, Vec<PEvent>) = match k {
@@ -292,6 +292,12 @@ fn unrelated_prelude() {
           vec![PEvent::plain(Event::TopDown(vec![2])), PEvent::plain(Event::TopDown(vec![0]))]),
     3 => (Prog { n_res: 1, bodies: vec![vec![st(Op::Read(0, RC::Exact))], vec![st(Op::Write(0, Src::One, RC::Exact))], vec![st(Op::Write(0, Src::Zero, RC::Exact))]] },
           vec![PEvent::plain(Event::TopDown(vec![1, 0])), PEvent::plain(Event::TopDown(vec![2]))]),
+    // a resource checker that fails during top-down validation (the validation gives up with an error half-way)
+    5 => (Prog { n_res: 2, bodies: vec![vec![st(Op::Req(1, q)), st(Op::Read(1, RC::Faulty))], vec![st(Op::Read(1, RC::Exact)), st(Op::Read(0, RC::Faulty)), st(Op::Read(1, RC::Exists))]] },
+          vec![PEvent::plain(Event::TopDown(vec![0])), PEvent::plain(Event::SetFail(0, true)), PEvent::plain(Event::TopDown(vec![0, 1]))]),
+    // ... and during bottom-up scheduling, followed by a top-down require in the same session
+    6 => (Prog { n_res: 2, bodies: vec![vec![st(Op::Req(1, q)), st(Op::Read(1, RC::Faulty))], vec![st(Op::Read(0, RC::Faulty)), st(Op::Read(1, RC::Exact))]] },
+          vec![PEvent::plain(Event::TopDown(vec![0])), PEvent::plain(Event::SetFail(0, true)), PEvent::plain(Event::SetFail(1, true)), PEvent::plain(Event::Set(1, Some(1))), PEvent::plain(Event::BottomUp { pre: vec![], reported: vec![0, 1], then: vec![0], builds: 1 })]),
     _ => (Prog { n_res: 1, bodies: vec![vec![st(Op::Read(0, RC::Exact)), Stmt { guard: Some(1), op: Op::Req(2, q) }], vec![st(Op::Req(0, q))], vec![st(Op::Req(1, q)), st(Op::Read(0, RC::Exact))]] },
           vec![PEvent::plain(Event::TopDown(vec![2, 1])), PEvent::plain(Event::Set(0, Some(1))), PEvent::plain(Event::BottomUp { pre: vec![], reported: vec![0], then: vec![2], builds: 1 })]),
   };
